@@ -115,11 +115,12 @@ def conclude(mod, prop, tier, seed, results, problems, wall, nshards):
     for key in sorted(known_seen):
         lines.append(f"KNOWN-FINDING: property={prop} key={key} {known[key]} (re-observed {m['viol_per_key'].get(key, 0)}x)")
     replay_paths = []
-    rdir = os.path.join(env.VERIF, "replays")
+    rsub = "replays" if os.path.realpath(env.REPO) == "/repo" else os.path.join(".run", "scratch-replays", os.path.basename(env.REPO.rstrip("/")))
+    rdir = os.path.join(env.VERIF, rsub)
     os.makedirs(rdir, exist_ok=True)
     for key in sorted(unknown):
         v = unknown[key][0]
-        path = os.path.join("replays", f"{prop}-{slug(key)}.json")
+        path = os.path.join(rsub, f"{prop}-{slug(key)}.json")
         with open(os.path.join(env.VERIF, path), "w") as f:
             json.dump({"property": prop, "key": key, "detail": v["detail"], "case": v["case"], "tier": tier,
                        "seed": seed, "count": m["viol_per_key"].get(key, 0)}, f, indent=1)
@@ -177,8 +178,11 @@ def conclude(mod, prop, tier, seed, results, problems, wall, nshards):
         "assumptions": getattr(mod, "ASSUMPTIONS", []), "wall_s": round(wall, 2),
         "violations": sum(m["viol_per_key"].get(k, 0) for k in unknown),
     }
-    os.makedirs(os.path.join(env.VERIF, "evidence"), exist_ok=True)
-    with open(os.path.join(env.VERIF, "evidence", f"{prop}.json"), "w") as f:
+    # evidence/ is only ever written from runs against /repo itself; runs pointed at a scratch copy (VERIF_REPO,
+    # used to evaluate deliberately broken trees) write under .run/ and leave the committed evidence alone
+    evdir = os.path.join(env.VERIF, "evidence") if os.path.realpath(env.REPO) == "/repo" else os.path.join(env.VERIF, ".run", "scratch-evidence")
+    os.makedirs(evdir, exist_ok=True)
+    with open(os.path.join(evdir, f"{prop}.json"), "w") as f:
         json.dump(ev, f, indent=1, sort_keys=True)
     for ln in lines:
         print(ln)
